@@ -237,7 +237,7 @@ def raiser_episode(seed):
         def reset(self):
             pass
     Guard(d)
-    out = {"C02": [], "C13": []}
+    out = {"C01": [], "C02": [], "C05": [], "C10": [], "C13": []}
     tr = gen.Tracker(jobs)
     recorded = []
     while not tr.done():
@@ -276,7 +276,24 @@ def raiser_episode(seed):
         for name, o, want in (("makespan", mk, -mks), ("idle-time", idle, -idl)):
             if len(o.rewards) != n or sum(o.rewards) != want or any(x > 0 for x in o.rewards):
                 out["C13"].append((name + "-sum", f"after {what}: {name} rewards {o.rewards} for {n} scheduled operations, expected sum {want}"))
-        if out["C02"] or out["C13"]:
+        # C01: what the dispatcher holds is feasible; C05: its queries say what the schedule implies; C10: the history observer
+        # (subscribed before the user's observer) has one entry per scheduled operation, in order
+        for prob in feasible(inst, lists)[:2]:
+            out["C01"].append(("infeasible", f"after {what}: {prob}"))
+        v = View(inst, lists)
+        ids = lambda ops: [o.operation_id for o in ops]  # noqa: E731
+        for name, got, want in (("unscheduled_operations()", ids(d.unscheduled_operations()), ids(v.unscheduled())),
+                                ("scheduled_operations()", sorted(ids(d.scheduled_operations())), sorted(v.sop)),
+                                ("available_operations()", ids(d.available_operations()), ids(v.available(None))),
+                                ("current_time()", d.current_time(), v.now(None))):
+            if got != want:
+                out["C05"].append(("query:" + name, f"after {what}: {name} = {got}, the schedule implies {want}"))
+        got_h = [(x.operation.operation_id, x.machine_id) for x in hist.history]
+        want_h = [(o.operation_id, mm_) for o, mm_ in recorded]
+        if got_h != want_h:
+            out["C10"].append(("history-record", f"after {what}: the history observer (subscribed before the raising observer) recorded "
+                               f"{got_h}, the schedule was built by {want_h}"))
+        if any(out.values()):
             break
         if sop is None:
             # the library took the operation back: the request can be made again
